@@ -407,6 +407,9 @@ type Case struct {
 	Rej     int          // candidates refused by the general-position margin (redrawn)
 	Dropped int          // points given up after 3 refused candidates
 	Skipped int          // candidates left out by their "keep" draw (shrinking aid)
+	// Spare: capacity the input slice has beyond its length (a slice collected with append or cut out
+	// of a larger one): the callee can write behind the points without allocating
+	Spare int `json:",omitempty"`
 }
 
 var dists = []string{"uniform", "clustered", "hull-line", "grid", "ring"}
@@ -585,6 +588,7 @@ func genCase(t *rapid.T) Case {
 		}
 	}
 	c.Pts = pts
+	c.Spare = rapid.SampledFrom([]int{0, 0, 1, 3, 8, 64}).Draw(t, "spareCapacity")
 	return c
 }
 
@@ -645,11 +649,23 @@ func runCase(c Case, o *vh.Obs) *vh.Failure {
 	}
 	frame := fmt.Sprintf("n=%d x-extent=%g y-extent=%g bbox=[%g,%g]x[%g,%g]", n, w, h, lo[0], hi[0], lo[1], hi[1])
 
-	in := make([]vector2.Float64, n) // capacity == length: the callee cannot write behind it
+	spare := c.Spare
+	if spare < 0 || spare > 1024 {
+		spare = 0
+	}
+	in := make([]vector2.Float64, n, n+spare) // Spare == 0: capacity == length, the callee cannot write behind it
 	for i, p := range c.Pts {
 		in[i] = vector2.New(p[0], p[1])
 	}
+	if spare > 0 {
+		o.Class("input-slice-with-spare-capacity")
+	}
 	m := triangulation.BowyerWatson(in)
+	for i, p := range c.Pts { // the caller's points are the caller's
+		if math.Float64bits(in[i].X()) != math.Float64bits(p[0]) || math.Float64bits(in[i].Y()) != math.Float64bits(p[1]) {
+			return vh.Failf("input-modified", "BowyerWatson changed the caller's slice: point %d was (%v, %v) and is (%v, %v) after the call (slice capacity %d for %d points)", i, p[0], p[1], in[i].X(), in[i].Y(), n+spare, n)
+		}
+	}
 
 	// (1) vertices are the input points, indices are in range
 	pos := m.Float3Attribute(modeling.PositionAttribute)
